@@ -94,7 +94,7 @@ Definition promised (cl : list client) (g : store) (c : cred) (subj : tokstr) (s
          end
   | _ => false
   end
-  && subj_live false g styp subj && actor_live g actor && issuable (policy g) req && negb (string_in "veto" scopes).
+  && subj_live false g styp subj && actor_live g actor && issuable (policy g) req && negb (vetoed (policy g) scopes).
 
 Definition is_error (st : status) : bool :=
   match st with S400 | S401 | S403 | S500 => true | _ => false end.
@@ -104,7 +104,7 @@ Definition check (cl : list client) (g : store) (o : op) (x : out) : bool :=
   | _, OPanic => false
   | Exchange _ c subj styp actor req scopes aud, OExch issued access rt rt_live sc stored =>
       client_ok cl c && subj_live false g styp subj && actor_live g actor
-      && issuable (policy g) req && negb (string_in "veto" scopes)
+      && issuable (policy g) req && negb (vetoed (policy g) scopes)
       && strs_eqb sc (decided_scopes (policy g) scopes)
       && contained (policy g) (decided cl g c subj styp actor scopes aud) issued access rt rt_live stored
   | Exchange _ c subj styp actor req scopes _, OErr st oauth =>
